@@ -11,7 +11,7 @@ import (
 	"golang.org/x/tools/go/ssa"
 )
 
-var stopChannels = map[string]bool{"closeCh": true, "closeReaderCh": true, "closeKAManagerCh": true, "closingListeners": true}
+var stopChannels = map[string]bool{"closeCh": true, "closeReaderCh": true, "established:stop": true, "Serve:stop": true}
 
 type boundedWait struct {
 	fn, ch, kind string // kind: "recv" | "send"
@@ -60,13 +60,13 @@ var boundedWaits = []boundedWait{
 	{"fsm.connect", "dialResultCh", "recv", "after cancelDialFn(): the dialer returns and sends/closes", dominatedByCall("dyn:context.CancelFunc")},
 	{"fsm.cleanupConnAndReader", "readerDoneCh", "recv", "after conn.Close() and close(closeReaderCh): the reader's read fails and every select of it watches closeReaderCh", dominatedByCall("sync.Once.Do")},
 	{"fsm.drainAndResetHoldTimer", "C", "recv", "only when Stop() reported the timer already fired (value buffered)", underFailedStop},
-	{"fsm.openSent$1", "C", "recv", "only when Stop() reported the timer already fired (value buffered)", underFailedStop},
+	{"fsm.openSent", "C", "recv", "only when Stop() reported the timer already fired (value buffered)", underFailedStop},
 	{"fsm.stop", "doneCh", "recv", "after close(closeCh) (Once): every wait of the FSM goroutine watches closeCh", dominatedByCall("sync.Once.Do")},
 	{"peer.stop", "doneCh", "recv", "after close(closeCh) (Once): every wait of the peer manager watches closeCh", dominatedByCall("sync.Once.Do")},
 	{"newPeer", "C", "recv", "timer created with duration 0 just before", dominatedByCall("time.NewTimer")},
-	{"fsm.established", "kaManagerDoneCh", "recv", "after the session loop returned: its defer closed closeKAManagerCh, which the manager's only select watches", nil},
-	{"fsm.dialPeer$1", "dialResultCh", "send", "the FSM receives exactly one result per dial (connect) or after cancel (cleanup)", nil},
-	{"fsm.established$2", "resetKATimerCh", "send", "the manager goroutine is alive until this function's defer closes closeKAManagerCh", nil},
+	{"fsm.established", "established:done", "recv", "after the session loop returned: its defer closed closeKAManagerCh, which the manager's only select watches", nil},
+	{"fsm.dialPeer", "dialResultCh", "send", "the FSM receives exactly one result per dial (connect) or after cancel (cleanup)", nil},
+	{"fsm.established", "resetKATimerCh", "send", "the manager goroutine is alive until this function's defer closes closeKAManagerCh", nil},
 }
 
 func (c *Check) blockingInventory(rule string) {
@@ -104,8 +104,8 @@ func (c *Check) blockingInventory(rule string) {
 			}
 		})
 	}
-	c.floor(rule, nsel, 20, "blocking selects")
-	c.floor(rule, nbare, 10, "bare blocking channel operations")
+	c.floor(rule, nsel, 12, "blocking selects")
+	c.floor(rule, nbare, 8, "bare blocking channel operations")
 }
 
 // chanNameOf names a channel also when it is the C field of a timer.
@@ -124,9 +124,12 @@ func chanNameOf(v ssa.Value) string {
 func (c *Check) checkBare(rule string, fn *ssa.Function, in ssa.Instruction, ch, kind string) {
 	p := c.P
 	name := p.Name(fn)
+	// the entry is keyed by the known top-level function the operation
+	// belongs to (closures, helpers and goroutine bodies included)
+	owner := p.ownerName(in.Parent())
 	for _, w := range boundedWaits {
-		if w.fn == name && w.ch == ch && w.kind == kind {
-			ok := w.premise == nil || w.premise(c, fn, in)
+		if w.fn == owner && w.ch == ch && w.kind == kind {
+			ok := w.premise == nil || w.premise(c, in.Parent(), in)
 			c.require(ok, rule, name, fmt.Sprintf("bare %s on %s", kind, ch), p.InstrPos(in), "bounded wait: "+w.reason)
 			return
 		}
